@@ -27,6 +27,7 @@ struct Outcome {
     int key_id = -1; int rc = 0;            // rotate ops
     bool after_fatal = false;               // an earlier operation of this thread had a fatal alert hit a session of the presented id
     bool srv_alerted = false;               // fatalres: the server did send a fatal alert
+    bool after_failure = false;             // an earlier connection of this thread failed (e.g. aborted EMS-mismatch resumption): what the client still holds is its own business
     bool ems_flip = false;                  // the stored TLS <= 1.2 session is presented WITHOUT the extended_master_secret extension it was made with
 };
 
@@ -48,6 +49,7 @@ struct ThreadCtx {
     std::vector<Outcome> out;
     uint64_t fp = 0;
     std::vector<std::unique_ptr<TlsWorld>> held;   // connections this thread keeps open across later operations (several holders of one cache entry)
+    int failed_since_full = 0;
     int sess_ems = 1;                              // was the session this thread's client currently holds made with extended_master_secret?
     int fatal_since_full = 0;                      // a fatal alert hit a session of this thread's current id since its last full handshake
 };
@@ -85,7 +87,7 @@ void run_conn(ThreadCtx &T, const Op &op, int opi) {
     }
     bool hold = op.k == "hold", fatal = op.k == "fatalres";
     if (op.k == "full") { T.fatal_since_full = 0; }
-    o.after_fatal = T.fatal_since_full > 0;
+    o.after_fatal = T.fatal_since_full > 0; o.after_failure = T.failed_since_full > 0;
     o.inv = vs_event_seq();
     std::unique_ptr<TlsWorld> wp(new TlsWorld()); TlsWorld &w = *wp;
     w.adopt(T.sh->skeys, T.ckeys, T.sid, pc);
@@ -95,7 +97,8 @@ void run_conn(ThreadCtx &T, const Op &op, int opi) {
         o.ok = w.handshake();
         o.resumed_s = o.ok && w.srv->is_resumed(); o.resumed_c = o.ok && w.cli->is_resumed();
         o.err_c = w.cli->first_error; o.err_s = w.srv->first_error;
-        if (o.ok && !o.resumed_s) { T.fatal_since_full = 0; T.sess_ems = tls13 ? 1 : ems_now; }     // a new session was established: the client now holds a fresh id
+        if (o.ok && !o.resumed_s) { T.fatal_since_full = 0; T.failed_since_full = 0; T.sess_ems = tls13 ? 1 : ems_now; }
+        if (!o.ok) { T.failed_since_full++; }     // a new session was established: the client now holds a fresh id
         if (o.ok) {
             Bytes a = tagged_payload(0, T.idx * 100 + opi, 60 + (size_t) T.idx), b = tagged_payload(1, T.idx * 100 + opi, 90 + (size_t) opi);
             w.cli->app_send(a.data(), a.size()); w.srv->app_send(b.data(), b.size()); w.pump();
@@ -388,6 +391,7 @@ static RunResult c20_exec(const Plan &p) {
                 else { may_resume = true; may_full = false; }
                 if (o.ticket_key < 0) { may_resume = true; may_full = true; }
             }
+            if (o.after_failure) { may_resume = true; may_full = true; }
             if (o.resumed_s && !may_resume) {
                 res.violate("resumption_not_serializable", ctx + ",resumed", "T" + std::to_string(o.thread) + " op " + std::to_string(o.opi) + " resumed via " + o.mech + " (ticket key " + std::to_string(o.ticket_key) +
                             ") although in every sequential order consistent with the history that state was no longer valid");
